@@ -1197,7 +1197,7 @@ GENERATE IN INSTANCES INSTANCE MANY OBJECT ONE RELATED RELATE SELECT STOP TO WHE
 PYTHON_CONVENTIONAL = ['self', 'cls', 'args', 'kwargs', 'kwds', 'kw', 'mcs', 'klass', 'other', 'result', 'return_value']
 PN_ENTRIES = ['py:function', 'py:function, keywords the other way round', 'py:bridge', 'py:class operation', 'py:instance operation', 'oal']
 # (name, entry) pairs the unmodified library gets wrong; kept out of the run, see the report of round 11
-PN_KNOWN = {'cls': ('py:class operation', 'oal')}
+PN_KNOWN = {}          # (the class-operation parameter named cls was repaired in /repo: F-C15c)
 
 
 def admissible_parameter_name(name):
